@@ -77,6 +77,12 @@ def cases(tier, seed):
     for i in range(n):
         out.append({'name': 'lfcore-%d' % i, 'kind': 'lfcore',
                     'seed': [seed, 49, i]})
+    n = 10 if tier == 'quick' else 200
+    for i in range(n):
+        # lazy correlated-parameter updates switched on: only the step
+        # REQUIREMENT is judged (it must not go through the update tracker)
+        out.append({'name': 'ptol-%d' % i, 'kind': 'ptol',
+                    'seed': [seed, 50, i]})
     return out
 
 
@@ -972,6 +978,64 @@ def run_probe_case(case, res):
     return feats
 
 
+def run_ptol(case, res):
+    """param_update_tol > 0: the stale correlated parameters of the march
+    are outside this property, the step requirement is not - it is the
+    limit formula with everything evaluated afresh at the inlet and at the
+    estimated outlet temperature."""
+    import dassh.region_rodded as _rr
+    rng = np.random.default_rng(case['seed'])
+    P, feats = wl.single_assembly(
+        rng, coolant_pool=True, tdep=True, max_rings=4, length=0.25,
+        gap=wl.choose(rng, ['none', 'none', 'flow']),
+        vel=wl.loguniform(rng, 0.01, 0.3), lf=False, regions=False,
+        conv_approx=False, n_duct=int(wl.choose(rng, [1, 1, 2])))
+    P['setup']['param_update_tol'] = float(wl.choose(rng, [0.01, 0.05, 0.2]))
+    sp = P['power']['asm']['0']
+    if rng.random() < 0.5:
+        sp['total'] *= 0.05          # small rise: both evaluations "close"
+    key = {'gap': P['gap_model'], 'ptol': P['setup']['param_update_tol']}
+    with drive.scratch() as d:
+        inp, r = drive.build(P, d, max_steps=MAX_STEPS)
+        a = r.assemblies[0]
+        reg = a.rodded
+        flowing = reg.n_bypass > 0 and np.sum(reg.byp_flow_rate) > 0
+        which = None
+        if r._is_adiabatic:
+            which = 'outer_byp' if flowing else (
+                'outer' if reg.n_bypass == 0 else None)
+        t_now = float(reg.coolant.temperature)
+        lims = []
+        with drive.quiet():
+            for T in (float(r.inlet_temp), float(a._estimated_T_out)):
+                reg._update_coolant_int_params(T, use_mat_tracker=False)
+                lims.append(float(_rr._calculate_int_dz(reg, which)[0]))
+                if flowing:
+                    reg._update_coolant_byp_params([T] * reg.n_bypass)
+                    lims.append(float(_rr._calculate_byp_dz(reg, which)[0]))
+            reg._update_coolant_int_params(t_now, use_mat_tracker=False)
+            if reg.n_bypass:
+                reg._update_coolant_byp_params([t_now] * reg.n_bypass)
+        want = min(lims)
+        got = float(r.min_dz['dz'][0])
+        res.close('L2_requirement_is_formula_at_evaluation_temps',
+                  got - want, want, 1e-9,
+                  'step requirement recorded for the bundle (%.6e) is not '
+                  'the limit formula evaluated afresh at the inlet and the '
+                  'estimated outlet temperature (%.6e)' % (got, want), key,
+                  {'recorded': got, 'formula': lims,
+                   'T_out_est': float(a._estimated_T_out)})
+        res.check('L_step_within_every_assembly_limit',
+                  float(np.max(r.dz)) <= want * (1 + 1e-9),
+                  'selected step %.6e exceeds the requirement %.6e'
+                  % (float(np.max(r.dz)), want), key)
+        res.tag('ptol=%g' % P['setup']['param_update_tol'])
+        res.tag('limiting:' + str(r.min_dz['sc'][0]))
+        if want < 0.01:
+            res.nontrivial('ptol/%s/%s' % (feats['nr'], case['seed'][-1]))
+    return feats
+
+
 def run_maxp(case, res):
     P, feats = build_problem(case)
     mode = feats['maxp']
@@ -1058,6 +1122,8 @@ def run_case(case):
     try:
         if case['kind'] == 'maxp':
             feats = run_maxp(case, res)
+        elif case['kind'] == 'ptol':
+            feats = run_ptol(case, res)
         else:
             feats = run_probe_case(case, res)
         res.sample({'case': case, 'features': feats})
